@@ -17,6 +17,7 @@ package httpcaddyfile
 import (
 	"encoding/json"
 	"fmt"
+	"maps"
 	"slices"
 
 	"github.com/dustin/go-humanize"
@@ -336,10 +337,24 @@ func applyServerOptions(
 		}
 	}
 
-	// rename the servers if marked to do so
-	for old, new := range nameReplacements {
-		servers[new] = servers[old]
-		delete(servers, old)
+	// rename the servers if marked to do so; all names are computed from the
+	// names as they were, so that the result does not depend on the order in
+	// which the renames are applied when a new name is another server's old
+	// name, and a name that two servers would end up with is an error rather
+	// than one server silently replacing the other
+	if len(nameReplacements) > 0 {
+		renamed := make(map[string]*caddyhttp.Server, len(servers))
+		for key, server := range servers {
+			if newName, ok := nameReplacements[key]; ok {
+				key = newName
+			}
+			if _, taken := renamed[key]; taken {
+				return fmt.Errorf("cannot use server name '%s' for more than one server", key)
+			}
+			renamed[key] = server
+		}
+		clear(servers)
+		maps.Copy(servers, renamed)
 	}
 
 	return nil
